@@ -54,6 +54,7 @@ func newVC(prog *Prog, fn *ssa.Function, fc *FuncContract, reg *KeyRegistry, dis
 	vc.A0 = Var("A0", IntSort)
 	vc.allocBase = vc.A0
 	vc.allocBases = map[*Term]bool{vc.A0: true}
+	knownAllocBases = map[*Term]bool{vc.A0: true}
 	vc.cellTypes = map[int]types.Type{}
 	vc.addGlobalFact(Gt(vc.A0, IntC(0)))
 	if fc != nil && (fc.Flags["safe"] || fc.Flags["nopanic"]) {
